@@ -193,6 +193,10 @@ def run(ctx):
         for (ty, l, r) in [("int", "a.i", "b.i"), ("int", "a.i", "3"), ("int", "a.i", "3000000000"), ("int", "2", "a.i"), ("uint", "a.u", "3"), ("uint", "a.u", "4294967296"),
                            ("double", "a.d", "2.5"), ("double", "a.d", "b.d"), ("string", "a.s", "b.s")]:
             items.append(("binding", prog.PROP_OF[ty], "%s(%s, %s)" % (f, l, r), ty))
+    # a gadget passed to a handler: read, written through (its setters are not const), re-assigned as a whole
+    for body in ["{ g.x = a.i; g.t = a.s; a.g = g; }", "{ a.i = g.x; console.log(g.t); }", "{ g = a.g; a.i = g.x; }", "{ g.x = g.x + 1; a.i = g.x; }",
+                 "{ if (a.b) { g.t = \"s\"; } a.s = g.t; }", "{ let h = g; h.x = 3; a.g = h; a.i = g.x; }"]:
+        items.append(("handler", "onGPicked", "function(g: VGadget) %s" % body, None))
     # constants that fold to a non-finite double (F19, repaired: they must be spelled with something C++ knows)
     for c in ["(1e308 * 100.0)", "(0.5 / 0.0)", "(-0.5 / 0.0)", "(1e-2 / 5e-324)", "(0.0 / 0.0)", "-(1e308 * 100.0)", "(1e308 * 100.0 - 1e308 * 100.0)", "(1e308 + 1e308)"]:
         items.append(("binding", "d", "a.d + %s" % c, "double"))
